@@ -198,7 +198,9 @@ func c13RpcTarget(f *c13Fixtures, e, companion *c13EpochFx, sp c13RpcSpec, twoEp
 			bodies = append(bodies, fmt.Sprintf(`{"jsonrpc":"2.0","id":1,"method":"getBlockTime","params":[%d]}`, s))
 		}
 	case "getSignaturesForAddress":
-		for _, p := range c13StoredPubkeys(e) {
+		stored := c13StoredPubkeys(e)
+		t.MustKeys = c13HotIdx(e, stored)
+		for _, p := range stored {
 			t.Keys = append(t.Keys, p.String())
 			bodies = append(bodies, fmt.Sprintf(`{"jsonrpc":"2.0","id":1,"method":"getSignaturesForAddress","params":["%s",{"limit":1000}]}`, p))
 		}
